@@ -46,6 +46,7 @@ def main():
                  ("fb-lowercase-refs", realise_fb(g, ref="n%d")), ("struct+alias-lowercase-refs", realise_struct(g, alias=True, ref="n%d"))]
         if all(len(outs(g, i)) <= 1 for i in range(1, g["n"] + 1)):
             reals.append(("enum-alias", realise_enum_alias(g)))
+            reals.append(("enum-alias-qualified-by-sibling", realise_enum_alias(g, qualified=True)))
         for kind, text in reals:
             cases.append({"id": len(cases), "files": [{"name": "g.st", "text": text}]})
             meta.append((g, kind, text))
